@@ -10,7 +10,15 @@ S2  real evaluation under sys.addaudithook, directly (safe_eval) and through the
     the value of every accepted expression must be its value under context-only name resolution (one namespace = the
     context at every scope depth, empty __builtins__), also for AST keys spelled like builtins used in nested scopes
 S3  the interpolation loop of ParseContext.constant vs the extracted loop, oracle tables recorded from the real run
-All code of /repo runs in one fresh child interpreter (stdin detached, scratch directory, audit hook).
+S4  state carried between calls: PROGRAMS of many compiles / parses in ONE interpreter (sibling rules and nested rule calls
+    of one parse, models parsed again with other inputs, the same text compiled again, keys spelled like builtins, names of
+    TatSu's bootstrap grammar, semantics objects with a persistent safe_context() dict attached / detached, walrus bindings):
+    the context handed to the evaluator by every constant() call must be exactly pristine builtins | safe_context | keys of
+    the engine's current AST (and those keys must belong to the rule), every constant must have the value computed by the
+    harness from the texts of its own rule's keys (an unbound name leaves the text uninterpreted, whatever an earlier rule /
+    parse / grammar bound), safe_builtins() and the safe_context() dicts must be left unchanged, and the same program run
+    in a shuffled order (second interpreter) must evaluate every constant to the same value
+All code of /repo runs in fresh child interpreters (stdin detached, scratch directory, audit hook).
 """
 from __future__ import annotations
 
@@ -375,6 +383,140 @@ def run_parse(job):
     res['trace'] = trace
     return res
 
+def _semfn(name):
+    def fn(*args):
+        return name + ':' + ':'.join(str(x) for x in args)
+    fn.__name__ = name
+    fn.__qualname__ = name
+    return fn
+
+class SeqSemantics:
+    """semantics whose safe_context() hands out ONE persistent dict (as a user class caching it would)"""
+    def __init__(self, names):
+        self.names = list(names)
+        self.fns = {n: _semfn(n) for n in names}
+        self.d = dict(self.fns)
+    def safe_context(self):
+        return self.d
+
+def run_seq(job):
+    """a SEQUENCE of compiles / parses in this one interpreter (state may be carried from step to step).  Per step:
+    every call of ParserEngine.constant (literal, keys of the engine's current AST, difference between the context handed
+    to the evaluator and the pristine builtins, result), the difference between safe_builtins() and the pristine builtins
+    afterwards, the state of the persistent safe_context() dicts, audit events."""
+    global EVENTS
+    PR = {n: vars(builtins)[n] for n in job['pristine']}
+    models, sems, out = {}, {}, []
+    cur = [None]
+    calls = [None]
+    orig_constant = engine.ParserEngine.constant
+    saved = (engine.is_eval_safe, engine.safe_eval)
+
+    def ctxdiff(c):
+        if not c:
+            return {'empty': True}
+        return {'extra': sorted(k for k in c if k not in PR or c[k] is not PR[k]),
+                'missing': sorted(k for k in PR if k not in c)}
+
+    def note(c):
+        if cur[0] is not None:
+            try:
+                d = ctxdiff(c)
+            except BaseException as e:
+                d = {'error': type(e).__name__}
+            if d not in cur[0]['ctx']:
+                cur[0]['ctx'].append(d)
+
+    def is_eval_safe(e, c):
+        note(c)
+        return saved[0](e, c)
+
+    def safe_eval(e, c):
+        note(c)
+        return saved[1](e, c)
+
+    def constant(self, literal, *a, **k):
+        if calls[0] is None or cur[0] is not None:
+            return orig_constant(self, literal, *a, **k)
+        rec = {'lit': literal if isinstance(literal, str) else short(literal),
+               'ast': sorted(self.ast) if isinstance(self.ast, engine.AST) else None, 'ctx': []}
+        calls[0].append(rec)
+        cur[0] = rec
+        try:
+            v = orig_constant(self, literal, *a, **k)
+        except Hang:
+            raise
+        except BaseException as e:
+            rec['res'] = 'raises:' + type(e).__name__
+            raise
+        finally:
+            cur[0] = None
+        rec['res'] = ['str', v] if isinstance(v, str) else canon(short(v))
+        return v
+
+    orig_alias = engine.ParserEngine._constant
+    engine.ParserEngine.constant = engine.ParserEngine._constant = constant
+    engine.is_eval_safe, engine.safe_eval = is_eval_safe, safe_eval
+    try:
+        for st in job['steps']:
+            res = {'id': st['id']}
+            out.append(res)
+            try:
+                if st['gid'] not in models:
+                    models[st['gid']] = tatsu.compile(st['g'], name=st['name'])
+                model = models[st['gid']]
+            except BaseException as e:
+                res['outcome'] = 'grammar-rejected:' + type(e).__name__
+                res['detail'] = str(e)[:200]
+                continue
+            sem = None
+            if st.get('sem') is not None:
+                sid = st['sem']['sid']
+                if sid not in sems:
+                    sems[sid] = SeqSemantics(st['sem']['names'])
+                sem = sems[sid]
+            calls[0] = res['calls'] = []
+            EVENTS = []
+            signal.alarm(20)
+            try:
+                if sem is None:
+                    model.parse(st['text'])
+                else:
+                    model.parse(st['text'], semantics=sem)
+                res['outcome'] = 'value'
+            except Hang:
+                res['outcome'] = 'hang'
+            except FailedParse as e:
+                res['outcome'] = 'failed-semantics' if 'Error evaluating constant' in str(e) else 'failed-parse'
+                res['detail'] = str(e)[:160]
+            except FailedSemantics as e:
+                res['outcome'] = 'failed-semantics'
+                res['detail'] = str(e)[:160]
+            except BaseException as e:
+                res['outcome'] = 'raises:' + type(e).__name__
+                res['detail'] = str(e)[:160]
+            finally:
+                signal.alarm(0)
+                res['events'] = EVENTS
+                EVENTS = None
+                calls[0] = None
+                cur[0] = None
+            now = safeeval.safe_builtins()
+            sb = {'added': sorted(k for k in now if k not in PR), 'removed': sorted(k for k in PR if k not in now),
+                  'replaced': sorted(k for k in PR if k in now and now[k] is not PR[k])}
+            if any(sb.values()):
+                res['sb'] = sb
+            bad = sorted(s for s, o in sems.items()
+                         if set(o.d) != set(o.fns) or any(o.d[n] is not o.fns[n] for n in o.fns))
+            if bad:
+                res['sem_mutated'] = {str(s): sorted(set(sems[s].d) ^ set(sems[s].fns)) or
+                                      sorted(n for n in sems[s].fns if sems[s].d[n] is not sems[s].fns[n]) for s in bad}
+    finally:
+        engine.ParserEngine.constant = orig_constant
+        engine.ParserEngine._constant = orig_alias
+        engine.is_eval_safe, engine.safe_eval = saved
+    return {'steps': out}
+
 DANGEROUS = json.load(open(jobs_path))['dangerous']
 jobs = json.load(open(jobs_path))['jobs']
 out = []
@@ -388,6 +530,8 @@ for job in jobs:
             out.append(run_direct(job))
         elif k == 'parse':
             out.append(run_parse(job))
+        elif k == 'seq':
+            out.append(run_seq(job))
         else:
             out.append({'error': 'unknown job'})
     except BaseException as e:
@@ -1069,6 +1213,444 @@ def run_parser(chk: Check, mr: ModelRun, scratch: Path, real_leaks: set):
     chk.extra['interpolated_text_reevaluated'] = "constant `{a}` re-evaluates its own result while it is a str (loop until fixpoint)"
 
 
+# ----------------------------------------------------------------------------- S4 state carried between calls
+# "can read only the names bound in the CURRENT AST ... and the values that safe expressions produce are unaffected" is a
+# statement about every constant of every rule of every parse of a process, whatever was evaluated before.  S1-S3 run each
+# constant in a grammar of its own; here the unit is a PROGRAM: many grammars (sibling rules, nested rule calls, keys spelled
+# like builtins, names of TatSu's own bootstrap grammar), models parsed again with other inputs, the same text compiled
+# again, semantics objects with a persistent safe_context() dict attached and detached, walrus bindings - in ONE interpreter.
+SEQ_ORD_KEYS = ['w', 'v', 'x', 'y', 'tok', 'secret', 'item', 'val']
+SEQ_BUILTIN_KEYS = ['len', 'max', 'min', 'sorted', 'sum', 'abs', 'repr', 'ord', 'any', 'all', 'next', 'iter', 'print', 'round']
+# never bound by a generated grammar: AST keys of TatSu's bootstrap grammar, locals of the evaluation code
+SEQ_OUTSIDE = ['rules', 'directives', 'keywords', 'title', 'name', 'exp', 'params', 'kwparams', 'base', 'decorators',
+               'value', 'self', 'ctx', 'ast', 'context', 'literal', 'result', 'expression', 'semantics', 'tatsu']
+SEQ_WALRUS = ['zq%d' % i for i in range(6)]
+SEQ_CNAMES = ['c%d' % i for i in range(1, 17)]
+SEQ_SEMS = [{'sid': 0, 'names': ['twice', 'tag']}, {'sid': 1, 'names': ['mark', 'len']}]
+SEQ_CALLS = {'len': len, 'max': max, 'min': min, 'sorted': sorted}
+NOEXP = object()
+
+
+class Drop(Exception):
+    pass
+
+
+def seq_word(rng) -> str:
+    if rng.random() < 0.2:
+        return str(rng.randint(0, 999))
+    return rng.choice('123456789') + ''.join(rng.choice('abcdefgh') for _ in range(rng.randint(1, 4)))
+
+
+def seq_settle(v, taken: set):
+    """what the interpolation loop makes of an interpolated text that is not an evaluable expression: literal_eval decides.
+    Raises Drop when the text could be evaluated (then this generator has no independent expectation)."""
+    n = 0
+    while isinstance(v, str):
+        n += 1
+        if n > 4 or v != v.strip() or '\n' in v or not v:
+            raise Drop()
+        try:
+            v = ast.literal_eval(v)
+            continue
+        except (ValueError, SyntaxError, TypeError, MemoryError, RecursionError):
+            pass
+        if '{' in v or '}' in v or "'" in v or '"' in v or '\\' in v:
+            raise Drop()
+        try:
+            t = ast.parse(v, mode='eval')
+        except (ValueError, SyntaxError):
+            return v
+        names = {x.id for x in ast.walk(t) if isinstance(x, ast.Name)}
+        if not names or names & taken:
+            raise Drop()
+        return v            # mentions a name bound nowhere: rejected, left as text
+    return v
+
+
+def seq_expected(v):
+    return ['str', v] if isinstance(v, str) else canon([type(v).__name__, repr(v)[:200]])
+
+
+def seq_template(rng, own, declared, pristine, foreign, semforeign, walrus, randnames):
+    """-> (class, literal, fn(T, sem) -> value | NOEXP).  T: texts of the rule's keys; sem: names of the attached semantics"""
+    o = rng.choice(own)
+    o2 = rng.choice(own)
+    bi = [b for b in SEQ_CALLS if b in pristine and b not in declared]
+    kinds = ['own', 'own2', 'method', 'foreign', 'foreign', 'foreign', 'semcall', 'random']
+    if bi:
+        kinds += ['call', 'call', 'fcall']
+    if walrus:
+        kinds.append('walrus')
+    if semforeign:
+        kinds.append('semforeign')
+    kind = rng.choice(kinds)
+
+    def callb(b, x, sem):
+        return (b + ':' + x) if b in sem else SEQ_CALLS[b](x)
+    if kind == 'own':
+        return kind, '{%s}' % o, (lambda T, sem: T[o]), None
+    if kind == 'own2':
+        return kind, '{%s}~{%s}' % (o, o2), (lambda T, sem: T[o] + '~' + T[o2]), None
+    if kind == 'method':
+        return kind, '%s.upper()' % o, (lambda T, sem: T[o].upper()), None
+    if kind == 'call':
+        b = rng.choice(bi)
+        return kind, '%s(%s)' % (b, o), (lambda T, sem: callb(b, T[o], sem)), None
+    if kind == 'fcall':
+        b = rng.choice(bi)
+        return kind, '{%s(%s)}{%s}' % (b, o, o2), (lambda T, sem: str(callb(b, T[o], sem)) + T[o2]), None
+    if kind == 'foreign':
+        f = rng.choice(rng.choice(foreign))
+        lit = rng.choice(['{F}', 'F', '{O}{F}', 'len(F)', 'F.upper()', '{F!r}', '{F}~{O}', 'max(O, F)', ' {F}', '{O}: {F}', 'F(O)',
+                          '{F(O)}', '[F]', '{len(F)}', 'O + F', '{O.upper()}{F}']).replace('F', f).replace('O', o)
+        return kind, lit, (lambda T, sem: Rejected(lit.strip())), f
+    if kind == 'semcall':
+        s = rng.choice([n for d in SEQ_SEMS for n in d['names'] if n not in declared])
+        lit = '%s(%s)' % (s, o)
+        return kind, lit, (lambda T, sem: (s + ':' + T[o]) if s in sem else
+                           (SEQ_CALLS[s](T[o]) if s in SEQ_CALLS and s in pristine else Rejected(lit))), None
+    if kind == 'semforeign':
+        f = rng.choice(semforeign)
+        lit = '{%s}~{%s}' % (o, f)
+        return kind, lit, (lambda T, sem: NOEXP if f in sem else Rejected(lit)), None
+    if kind == 'walrus':
+        z = rng.choice(walrus)
+        n = rng.randint(2, 99)
+        return kind, '(%s := %d)' % (z, n), (lambda T, sem: n), None
+    e = gen_random_expr(rng, rng.randint(1, 3), randnames)
+    if '`' in e or '\n' in e or not e.strip():
+        e = o
+    return 'random', e, (lambda T, sem: NOEXP), None
+
+
+class Rejected:
+    """the expression mentions a name that is not bound in the current AST: it stays text"""
+    def __init__(self, text):
+        self.text = text
+
+
+def seq_grammar(rng, gid: int, pristine: set, vocab: list) -> dict:
+    nrules = rng.choice([1, 1, 2, 2, 3])
+    bkeys = [b for b in SEQ_BUILTIN_KEYS if b in pristine]
+    rules = []
+    cn = iter(SEQ_CNAMES)
+    for i in range(nrules):
+        pool = vocab + (bkeys if rng.random() < 0.5 else [])
+        keys = []
+        for k in rng.sample(pool, min(len(pool), rng.randint(1, 3))):
+            if k not in keys:
+                keys.append(k)
+        rules.append({'name': 'r%d' % (i + 1), 'keys': keys, 'late': None, 'call': None, 'consts': [], 'late_consts': []})
+    top = [0]
+    for i in range(1, nrules):
+        if rng.random() < 0.4:
+            rules[i - 1]['call'] = i
+        else:
+            top.append(i)
+    for r in rules:
+        if rng.random() < 0.35:
+            cand = [k for k in vocab if k not in r['keys']]
+            r['late'] = rng.choice(cand)
+        r['ncon'] = (rng.randint(1, 3), rng.randint(1, 2) if r['late'] else 0)
+        r['cnames'] = [next(cn) for _ in range(sum(r['ncon']))]
+        r['declared'] = set(r['keys']) | set(r['cnames']) | ({r['late']} if r['late'] else set()) | \
+            ({'i'} if r['call'] is not None else set())
+    semnames = [n for d in SEQ_SEMS for n in d['names']]
+    everything = set(vocab) | set(bkeys) | set(SEQ_OUTSIDE) | set(SEQ_WALRUS) | set(SEQ_CNAMES) | set(semnames) | set(pristine) | {'i'}
+    for r in rules:
+        sib = [n for q in rules if q is not r for n in sorted(q['declared'])]
+        ok = lambda names: [n for n in dict.fromkeys(names)
+                            if n not in r['declared'] and n not in pristine and n not in semnames]
+        # mostly names that other rules / other parses of the program bind; then names bound nowhere, names of constants, walrus
+        cats = [c for c in (ok(sib + vocab), ok(sib + vocab), ok(sib + vocab), ok(SEQ_OUTSIDE), ok(SEQ_CNAMES), ok(SEQ_WALRUS)) if c]
+        foreign = [n for c in cats for n in c]
+        semforeign = [n for n in semnames if n not in r['declared'] and n not in pristine]
+        cnames = iter(r['cnames'])
+        for phase, n in enumerate(r['ncon']):
+            own = r['keys'] + ([r['late']] if phase else [])
+            for _ in range(n):
+                cls, lit, fn, fname = seq_template(rng, own, r['declared'], pristine, cats, semforeign, SEQ_WALRUS,
+                                                   own + foreign[:6] + ['len', 'max', 'sorted', 'next', 'repr', 'open', 'type'])
+                alert = rng.random() < 0.2
+                (r['late_consts'] if phase else r['consts']).append(
+                    {'cls': cls, 'lit': lit, 'fn': fn, 'alert': alert, 'name': next(cnames), 'fname': fname})
+    lines = ['start = ' + ' '.join(rules[i]['name'] for i in top) + ' $ ;']
+
+    def con(c):
+        return '^`%s`' % c['lit'] if c['alert'] else '%s:`%s`' % (c['name'], c['lit'])
+    for r in rules:
+        els = ["',' %s:/\\w+/" % k for k in r['keys']]
+        if r['call'] is not None:
+            els.append('i:' + rules[r['call']]['name'])
+        els += [con(c) for c in r['consts']]
+        if r['late']:
+            els.append("',' %s:/\\w+/" % r['late'])
+            els += [con(c) for c in r['late_consts']]
+        lines.append(r['name'] + ' = ' + ' '.join(els) + ' ;')
+    # execution order of the keys (input words) and of the constants
+    korder, corder = [], []
+
+    def walk(i):
+        r = rules[i]
+        korder.extend((i, k) for k in r['keys'])
+        if r['call'] is not None:
+            walk(r['call'])
+        corder.extend((i, c) for c in r['consts'])
+        if r['late']:
+            korder.append((i, r['late']))
+            corder.extend((i, c) for c in r['late_consts'])
+    for i in top:
+        walk(i)
+    return {'gid': gid, 'name': 'C17s%d' % gid, 'g': '\n'.join(lines), 'rules': rules, 'korder': korder, 'corder': corder,
+            'taken': everything}
+
+
+def seq_program(rng, nsteps: int, pristine: set) -> list[dict]:
+    vocab = rng.sample(SEQ_ORD_KEYS, 5)
+    grammars: list[dict] = []
+    steps = []
+    for sid in range(nsteps):
+        r = rng.random()
+        if grammars and r < 0.40:
+            g = rng.choice(grammars)                      # the same model object parses another input
+            how = 'same-model'
+        elif grammars and r < 0.48:
+            g = dict(rng.choice(grammars))                # the same text and name compiled again (tatsu.compile cache)
+            g['gid'] = 1000 + sid
+            how = 'recompiled'
+        else:
+            g = seq_grammar(rng, len(grammars), pristine, vocab)
+            grammars.append(g)
+            how = 'new-grammar'
+        words = [seq_word(rng) for _ in g['korder']]
+        T: dict = {}
+        for (ri, k), w in zip(g['korder'], words):
+            T.setdefault(ri, {})[k] = w
+        sem = rng.choice([None, None, None, SEQ_SEMS[0], SEQ_SEMS[1]])
+        semset = set(sem['names']) if sem else set()
+        expected = []
+        opaque: set = set()
+        for ri, c in g['corder']:
+            if c['cls'] == 'random':
+                opaque.add(ri)      # its value (any object, e.g. a function) becomes an entry of the rule's AST
+            if ri in opaque:
+                expected.append(None)
+                continue
+            try:
+                v = c['fn'](T[ri], semset)
+                if v is NOEXP:
+                    expected.append(None)
+                elif isinstance(v, Rejected):
+                    expected.append(['str', v.text])
+                else:
+                    expected.append(seq_expected(seq_settle(v, g['taken'])))
+            except Drop:
+                expected.append(None)
+        steps.append({'id': sid, 'gid': g['gid'], 'name': g['name'], 'g': g['g'], 'text': ''.join(',' + w for w in words),
+                      'sem': sem, 'how': how, 'grammar': g, 'expected': expected})
+    return steps
+
+
+def seq_wire(steps):
+    return [{k: s[k] for k in ('id', 'gid', 'name', 'g', 'text', 'sem')} for s in steps]
+
+
+def walrus_targets(lit: str) -> set:
+    out = set()
+    for src in (lit.strip(), 'f' + repr(lit.strip())):
+        try:
+            out |= {n.target.id for n in ast.walk(ast.parse(src, mode='eval')) if isinstance(n, ast.NamedExpr)}
+        except (ValueError, SyntaxError):
+            pass
+    return out
+
+
+def seq_problems(step: dict, rec: dict, semnames_all: set, vocab_all: set) -> list[tuple[str, str, dict]]:
+    """oracles on ONE step of a sequence -> [(signature, what, detail)]"""
+    g = step['grammar']
+    out = []
+    if rec.get('sb'):
+        kinds = '+'.join(k for k in ('added', 'removed', 'replaced') if rec['sb'][k])
+        out.append((f'state:safe_builtins-mutated:{kinds}',
+                    f'after the parse safe_builtins() is no longer the filtered interpreter builtins: {rec["sb"]}', {'diff': rec['sb']}))
+    if rec.get('sem_mutated'):
+        out.append(('state:safe_context-mutated', 'the dict returned by semantics.safe_context() was modified by the parse: '
+                    f'{rec["sem_mutated"]}', {'diff': rec['sem_mutated']}))
+    for evn in classify_events(rec.get('events', [])):
+        out.append((f'state:event:{evn}', f'the parse fires the audit event {evn!r}', {'event': evn}))
+    has_random = any(c['cls'] == 'random' for _, c in g['corder'])
+    if rec.get('outcome') != 'value' and not (has_random and rec.get('outcome') == 'failed-semantics'):
+        out.append((f"state:outcome:{str(rec.get('outcome')).split(':')[0]}",
+                    f"a grammar whose constants only use bound names, pure builtins and unbound names ends with {rec.get('outcome')}: "
+                    f"{rec.get('detail')}", {'outcome': rec.get('outcome'), 'detail': rec.get('detail')}))
+    calls = rec.get('calls') or []
+    sem = set(step['sem']['names']) if step['sem'] else set()
+    declared_of: dict = {}
+    for ri, c in g['corder']:
+        declared_of.setdefault(c['lit'], set()).update(g['rules'][ri]['declared'])
+    alldecl = set().union(*(r['declared'] for r in g['rules']))
+    for n, call in enumerate(calls):
+        lit = call['lit']
+        if not isinstance(lit, str) and has_random:
+            continue        # `1`, `None`: the grammar compiler already evaluated the text of the constant
+        decl = declared_of.get(lit) if isinstance(lit, str) else None
+        if decl is None and has_random:
+            # the text of a random expression with quotes is not the literal the grammar compiler stores
+            decl = set().union(*(g['rules'][ri]['declared'] for ri, c in g['corder'] if c['cls'] == 'random'))
+        if decl is None:
+            out.append(('state:unexpected-constant-call', f'constant() was called with {lit!r}, which the grammar does not contain', {'call': call}))
+            continue
+        astk = call['ast']
+        if astk is None or not set(astk) <= decl:
+            out.append(('state:current-ast-not-the-rule', f'the AST of the rule being parsed has the keys {astk}, the rule declares {sorted(decl)}',
+                        {'call': call}))
+            continue
+        # a walrus of the literal itself writes into the context of this one call (the loop may look at it again)
+        allowed = set(astk) | sem
+        own_walrus = walrus_targets(lit)
+        for d in call['ctx']:
+            leaked = sorted(set(d.get('extra', [])) - allowed - own_walrus) if 'extra' in d else []
+            lost = sorted(allowed - set(d.get('extra', []))) if 'extra' in d else []
+            missing = d.get('missing', [])
+            if d.get('empty') or d.get('error') or leaked or lost or missing:
+                classes = set()
+                for name in leaked:
+                    if name in alldecl:
+                        classes.add('sibling-rule')
+                    elif name in SEQ_WALRUS:
+                        classes.add('walrus')
+                    elif name in semnames_all:
+                        classes.add('semantics')
+                    elif name in vocab_all:
+                        classes.add('other-parse')
+                    else:
+                        classes.add('outside')
+                if lost:
+                    classes.add('own-name-lost')
+                if missing:
+                    classes.add('builtin-missing')
+                if d.get('empty') or d.get('error'):
+                    classes.add('no-context')
+                out.append(('state:context-not-current-ast:' + '+'.join(sorted(classes)),
+                            f'the constant {lit!r} is evaluated in a context that is not builtins | safe_context | current AST: '
+                            f'foreign names {leaked[:8]}, own names lost {lost[:8]}, builtins missing {missing[:8]}',
+                            {'call': call, 'leaked': leaked, 'lost': lost, 'missing': missing}))
+                break
+    exp = step['expected']
+    if rec.get('outcome') == 'value' and len(calls) != len(exp):
+        out.append(('state:constant-calls', f'{len(calls)} constants evaluated, the grammar runs {len(exp)}', {'calls': calls}))
+    for (ri, c), e, call in zip(g['corder'], exp, calls):
+        if e is not None and call.get('res') != e and call['lit'] == c['lit']:
+            out.append((f"state:constant-value:{c['cls']}", f"the constant {c['lit']!r} evaluates to {call.get('res')}, expected {e} "
+                        f"(keys of its rule: {g['rules'][ri]['keys']}, input {step['text']!r})",
+                        {'literal': c['lit'], 'impl': call.get('res'), 'expected': e}))
+            break
+    return out
+
+
+def run_sequences(chk: Check, info: dict, scratch: Path):
+    rng = chk.rng
+    pristine = set(info['safe_builtins'])
+    nprog, nsteps = (2, 42) if chk.quick else (5, 100)
+    semnames_all = {n for d in SEQ_SEMS for n in d['names']}
+    vocab_all = set(SEQ_ORD_KEYS) | set(SEQ_BUILTIN_KEYS) | set(SEQ_CNAMES) | {'i'}
+    n_bad = 0
+    n_order = 0
+    n_ctx = 0
+    n_foreign_live = 0
+    shrunk: dict = {}       # signature of a problem -> signature of its minimal reproduction
+    for pi in range(nprog):
+        steps = seq_program(rng, nsteps, pristine)
+        order2 = list(steps)
+        rng.shuffle(order2)
+        runs = run_child([{'kind': 'seq', 'steps': seq_wire(steps), 'pristine': sorted(pristine)},
+                          {'kind': 'info'}], scratch)
+        run1 = runs[0]
+        run2 = run_child([{'kind': 'seq', 'steps': seq_wire(order2), 'pristine': sorted(pristine)}], scratch)[0]
+        for r in (run1, run2):
+            if 'error' in r:
+                raise RuntimeError('child error in a sequence: ' + r['error'])
+        by1 = {r['id']: r for r in run1['steps']}
+        by2 = {r['id']: r for r in run2['steps']}
+        bound_so_far: set = set()
+        for order, by, tag in ((steps, by1, 'forward'), (order2, by2, 'shuffled')):
+            for pos, st in enumerate(order):
+                rec = by[st['id']]
+                if tag == 'forward':
+                    chk.case('S4:' + json.dumps([st['g'], st['text'], st['sem'] and st['sem']['sid']]), nontrivial=bool(rec.get('calls')))
+                    chk.count('S4.steps')
+                    chk.count('S4.step.' + st['how'])
+                    chk.count('S4.sem.' + ('none' if not st['sem'] else str(st['sem']['sid'])))
+                    chk.count('S4.constants', len(rec.get('calls') or []))
+                    n_ctx += sum(1 for c in rec.get('calls') or [] if c['ctx'])
+                    for (ri, c), e in zip(st['grammar']['corder'], st['expected']):
+                        chk.count('S4.tmpl.' + c['cls'])
+                        if e is not None:
+                            chk.count('S4.expected')
+                        if c['cls'] == 'foreign' and c['fname'] in bound_so_far:
+                            n_foreign_live += 1
+                    for r in st['grammar']['rules']:
+                        bound_so_far |= r['declared']
+                    if rec.get('outcome', '').startswith('grammar-rejected'):
+                        raise RuntimeError(f"generated grammar rejected: {rec.get('detail')}\n{st['g']}")
+                probs = seq_problems(st, rec, semnames_all, vocab_all)
+                for sig, what, detail in probs:
+                    n_bad += 1
+                    if sig in shrunk or len(shrunk) >= 8:
+                        chk.violation(shrunk.get(sig, sig + ':after-history'), what, {'oracle': 'S4 sequences', 'detail': detail})
+                        continue
+                    # minimal reproduction: the step alone, then after one earlier step, else the whole prefix
+                    cands = [[st]] + [[order[j], st] for j in range(pos - 1, max(-1, pos - 7), -1)]
+                    found = None
+                    for cand in cands:
+                        rr = run_child([{'kind': 'seq', 'steps': seq_wire(cand), 'pristine': sorted(pristine)}], scratch)[0]
+                        last = rr['steps'][-1]
+                        same = [p for p in seq_problems(st, last, semnames_all, vocab_all) if p[0].split(':')[1] == sig.split(':')[1]]
+                        if same:
+                            found = (cand, same[0])
+                            break
+                    if found is None:
+                        found = (order[:pos + 1], (sig, what, detail))
+                    cand, (sig2, what2, detail2) = found
+                    hist = 'fresh-process' if len(cand) == 1 else 'after-history'
+                    if len(cand) == 2:
+                        hist = 'after-same-model' if cand[0]['gid'] == st['gid'] else \
+                            'after-same-grammar' if cand[0]['g'] == st['g'] else 'after-other-grammar'
+                    shrunk[sig] = f'{sig2}:{hist}'
+                    chk.violation(f'{sig2}:{hist}', what2 + f' [{tag} order, step {pos}; reproduced by a sequence of {len(cand)} parse(s)]',
+                                  {'oracle': 'S4 sequences', 'detail': detail2,
+                                   'sequence': [{'grammar': s['g'], 'input': s['text'],
+                                                 'semantics_safe_context': s['sem'] and s['sem']['names'],
+                                                 'model': s['name'] + '#' + str(s['gid'])} for s in cand[-6:]]})
+        # the same step must behave the same wherever it stands in the sequence
+        for st in steps:
+            mask = lambda r: canon(r) if isinstance(r, list) and len(r) == 2 and isinstance(r[1], str) else r
+            a = [(c['lit'], mask(c.get('res')), c['ctx']) for c in by1[st['id']].get('calls') or []]
+            b = [(c['lit'], mask(c.get('res')), c['ctx']) for c in by2[st['id']].get('calls') or []]
+            if a != b or by1[st['id']].get('outcome') != by2[st['id']].get('outcome'):
+                n_order += 1
+                diff = next((x for x in zip(a, b) if x[0] != x[1]), (a[-1:] , b[-1:]))
+                chk.violation('state:order-dependent', f'the parse of {st["text"]!r} with\n{st["g"]}\nevaluates its constants differently '
+                              f'depending on the parses that ran before it: {diff[0]} vs {diff[1]}',
+                              {'oracle': 'S4 order', 'grammar': st['g'], 'input': st['text'], 'first_order': diff[0], 'second_order': diff[1]})
+        # the interpreter that ran the whole program still reports the builtins S0 compared with the model
+        after = runs[1]
+        if sorted(after.get('safe_builtins', [])) != sorted(pristine):
+            chk.violation('state:safe_builtins-mutated:names', 'after a sequence of parses safe_builtins() has other names than in a fresh '
+                          f'interpreter: {sorted(set(after.get("safe_builtins", [])) ^ pristine)[:10]}', {'oracle': 'S4'})
+            n_bad += 1
+    chk.count('S4.contexts_compared', n_ctx)
+    chk.count('S4.foreign_names_bound_earlier', n_foreign_live)
+    chk.obligation('S4:every constant of a sequence of parses is evaluated in builtins | safe_context | current AST and has its '
+                   'stand-alone value; safe_builtins() and safe_context() dicts are left alone; order of parses is irrelevant',
+                   'oracle', n_bad == 0 and n_order == 0 and n_ctx >= 100 and n_foreign_live >= 15
+                   and chk.dist.get('S4.step.same-model', 0) >= 10 and chk.dist.get('S4.expected', 0) >= 100,
+                   f"{n_bad} problem(s), {n_order} order dependence(s) over {chk.dist.get('S4.steps', 0)} parses / "
+                   f"{chk.dist.get('S4.constants', 0)} constants ({n_ctx} contexts compared, {chk.dist.get('S4.expected', 0)} values "
+                   f"with an independent expectation, {n_foreign_live} unbound names that an earlier parse had bound)")
+    chk.sample({'S4': steps[0]['g'], 'input': steps[0]['text'], 'calls': by1[steps[0]['id']].get('calls')})
+
+
 TABLE_ROWS: list = []
 
 
@@ -1083,11 +1665,19 @@ def main():
                 '(27 shapes: generator expressions, key= lambdas, comprehensions, defaults, two deep; random nested compositions); '
                 'accepted values compared with the value under context-only name resolution; grammars whose own AST keys are '
                 'spelled like builtins (open:, eval:, type:, ...); accepted ones evaluated under an audit '
-                'hook directly and through the parser (constant and alert, literal written in the grammar and patched into the model). '
+                'hook directly and through the parser (constant and alert, literal written in the grammar and patched into the model); '
+                'sequences of parses in one interpreter (2 programs x 42 parses quick, 5 x 100 thorough, each also in a shuffled '
+                'order): grammars of 1-3 rules (siblings / nested calls, a key bound between constants) over a small vocabulary of key '
+                'names incl. builtin spellings, 10 constant shapes over own keys / pure builtins / semantics functions / names bound '
+                'only elsewhere (other rule, other parse, other grammar, bootstrap grammar, walrus, detached semantics), constants and '
+                'alerts, same model re-parsed, same text recompiled, persistent safe_context() dicts. '
                 'Non-trivial: the expression parses / the loop made at least one oracle call; distinct by content hash.')
     chk.trusted += ['CPython audit events (open, exec, compile, import, builtins.input, os.*, subprocess.*) observed beneath a '
                     "frame of '<string>' code; sys.stdin replaced by a recorder (exit/quit close it)",
                     'ast.parse -> rose tree conversion (harness/props/c17.py:to_tree); the scan_for_exceptions oracle has_exc',
+                    'S4: the expected value of a templated constant is computed by the harness (python len/max/min/sorted/str.upper on the '
+                    'texts of the keys; ast.literal_eval for the final text; a text that could be an evaluable expression gets no expectation); '
+                    'ParserEngine.constant / engine.is_eval_safe / engine.safe_eval are wrapped to record the AST keys and the context',
                     'reference evaluation eval(expr, ns, ns) with ns = context + empty __builtins__ (child interpreter, only for '
                     'expressions the checker accepted and that returned a value; reprs compared with addresses masked)',
                     'modelled: safeeval.safe_builtins / _check_safe_eval_cached / check_eval_context, engine.constant loop; the '
@@ -1129,7 +1719,10 @@ def main():
         run_checker_and_eval(chk, mr, info, scratch, real_leaks)
         t2 = time.time()
         run_parser(chk, mr, scratch, real_leaks)
-        chk.extra['phase_seconds'] = {'S0': round(t1 - t0, 1), 'S1+S2': round(t2 - t1, 1), 'S3': round(time.time() - t2, 1)}
+        t3 = time.time()
+        run_sequences(chk, info, scratch)
+        chk.extra['phase_seconds'] = {'S0': round(t1 - t0, 1), 'S1+S2': round(t2 - t1, 1), 'S3': round(t3 - t2, 1),
+                                      'S4': round(time.time() - t3, 1)}
     finally:
         shutil.rmtree(scratch, ignore_errors=True)
     chk.exhaustive = False
